@@ -168,6 +168,8 @@ Definition slab_set (s : slabt) (k : Z) (h : hkind) : slabt :=
 
 (** [WakeHandlers::add]: the loop that re-homes a handler landing on a reserved slot. *)
 Fixpoint add_loop (fuel : nat) (s : slabt) (h : hkind) (bit : Z) : option (Z * Z * slabt) :=
+  if 4294967296 <=? bit then None            (* u32::try_from(key).expect("Exceeded 2^32 Waker instances") *)
+  else
   match waker_base bit with
   | None => None
   | Some base =>
@@ -380,17 +382,22 @@ Definition hinstrs (h : hkind) (del : bool) : list instr :=
   | HPipe p => [ILock (MPq p) (LPqHandler p del)]
   end.
 
-(** the leaf step of [BitMap::set(bit)] for the bitmap [bm] *)
+(** a bitmap that has been pushed on its vec *)
+Definition registered (st : wstate) (bm : Z) : bool :=
+  (0 <=? bm) && (bm / USIZE_BITS <? vlen st (bm mod USIZE_BITS)).
+
+(** the leaf step of [BitMap::set(bit)] for the bitmap [bm].  [None] = the index panic of
+    [self.tree.child[a]] (a >= USIZE_BITS) / arithmetic overflow; the [registered] test always
+    succeeds in the real code (the Waker holds an [Arc] of its bitmap). *)
+Definition climb_at (st : wstate) (bit bm : Z) (who : option hkind) : option instr :=
+  match bitmap_split bit (bmbase st bm) with
+  | Some (a, b) => if (a <? USIZE_BITS) && registered st bm then Some (IClimb (KLeaf bm a b who)) else None
+  | None => None
+  end.
 Definition climb_start (st : wstate) (wi : winfo) (who : option hkind) : option instr :=
-  match bitmap_split (wbit wi) (bmbase st (wbm wi)) with
-  | Some (a, b) => Some (IClimb (KLeaf (wbm wi) a b who))
-  | None => None
-  end.
+  climb_at st (wbit wi) (wbm wi) who.
 Definition climb_reserved (st : wstate) (bm : Z) : option instr :=
-  match bitmap_split (bmbase st bm) (bmbase st bm) with
-  | Some (a, b) => Some (IClimb (KLeaf bm a b None))
-  | None => None
-  end.
+  climb_at st (bmbase st bm) bm None.
 Definition olist {A} (o : option A) : list A := match o with Some x => [x] | None => [] end.
 Definition isnone {A} (o : option A) : bool := match o with Some _ => false | None => true end.
 
@@ -495,8 +502,11 @@ Definition exec_climb (st : wstate) (t : tid) (k : climb) (r : list instr) : wst
       let new := Z.lor old (Z.shiftl 1 b) in
       let st1 := rmw_clk st t (WLeaf bm a) in
       let st2 := set_leaf st1 (fun x y => if (x =? bm) && (y =? a) then new else leaf st1 x y) in
-      let st3 := match who with
-                 | Some h => set_gnew st2 (updH (gnew st2) h (ovjoin (gnew st2 h) (tclk (th st t))))
+      let st3 := match bitmap_join a b (bmbase st bm) with
+                 | Some x => match slab_get (sl st) x with
+                             | Some h => set_gnew st2 (updH (gnew st2) h (ovjoin (gnew st2 h) (tclk (th st t))))
+                             | None => st2
+                             end
                  | None => st2
                  end in
       (set_cont st3 t (if old =? 0 then IClimb (KSum bm a) :: r else r),
@@ -529,7 +539,8 @@ Definition exec_lact (st : wstate) (t : tid) (a : lact) (r : list instr) : wstat
        | None => (set_cont st1 t (IUnlock MDL UNone :: r), [EErr])
        end)
   | LTake =>
-      (set_cont (set_dl st []) t (IUnlock MDL (UDels (dl st)) :: r), [])
+      let '(st1, ev) := ghost_handler st t HReserved false in
+      (set_cont (set_dl st1 []) t (IUnlock MDL (UDels (dl st)) :: r), ev)
   | LChInit c =>
       let x := chs st c in
       (set_cont (set_chan st c (mkChan (cexists x) (creg x) (cguard x) true (cq x) (cw x))) t
